@@ -82,6 +82,13 @@ def executor(ctx: Ctx) -> Executor:
     sn = fn.self_name
     lp = roles.enclosing_loop_of(fn.node, c.call)
     fvar = lp.target.id if isinstance(lp, ast.For) and isinstance(lp.target, ast.Name) else None
+    if isinstance(lp, ast.While):
+        # `future = next(iter(<pending>))` inside a while-form start loop
+        for n in walk_local(lp):
+            if isinstance(n, ast.Assign) and isinstance(n.targets[0], ast.Name) and isinstance(n.value, ast.Call) \
+                    and dotted(n.value.func) == 'next' and n.value.args and isinstance(n.value.args[0], ast.Call) \
+                    and dotted(n.value.args[0].func) == 'iter':
+                fvar = n.targets[0].id
     # running map: item store whose value tuple contains the process variable
     running = None
     pending = None
@@ -128,9 +135,12 @@ def who_may_start(ctx: Ctx):
             yield ctx.ob('C04.WHO-MAY-START', False, c.fn, c.call, f'process API {c.name}',
                          f'`{src(c.call)[:80]}` starts processes/threads outside the executor')
         else:
-            tgt = kwarg(c.call, 'target', 1)
-            ok = isinstance(tgt, ast.Name) and tgt.id in c.fn.nested and c.fn.cls is not None \
-                and home is not None and c.fn.cls.qualname == ctx.P.funcs[home].cls.qualname
+            ok = False
+            try:
+                _cons, _host, _thread = queue_consumer(ctx)
+                ok = _thread is c.call
+            except AnalysisError:
+                ok = False
             yield ctx.ob('C04.WHO-MAY-START', ok, c.fn, c.call, f'thread construction {c.name}',
                          '' if ok else f'`{src(c.call)[:80]}` creates a thread that is not the executor\'s local queue consumer')
     # .start() on a process object only in the top-up routine
@@ -205,6 +215,37 @@ def worker_gate(ctx: Ctx):
         need2 = formula_of(ctx, fn, f'(len({sn}.{ex.running}) < {sn}.max_workers) and (len({sn}.{ex.pending}) > 0)')
         bound_ok = equivalent(have, need2) or equivalent(have, need)
         msg = f'the start loop continues while {show(have)}; expected {show(need2)}'
+        if not bound_ok:
+            # counter form: `n = max(0, W - len(running))`; `while n > 0 and pending: ...; n -= 1`
+            cnt = None
+            for nm in [x.id for x in ast.walk(lp.test) if isinstance(x, ast.Name)]:
+                decs = [a for a in walk_local(lp) if isinstance(a, ast.AugAssign) and isinstance(a.target, ast.Name) and a.target.id == nm
+                        and isinstance(a.op, ast.Sub) and isinstance(a.value, ast.Constant) and a.value.value == 1]
+                if len(decs) == 1:
+                    cnt = (nm, decs[0])
+            if cnt is not None:
+                nm, dec = cnt
+                need3 = formula_of(ctx, fn, f'({nm} > 0) and (len({sn}.{ex.pending}) > 0)')
+                init_defs = [d for d in rd.reaching(g.primary(lp), nm) if d != g.primary(dec)]
+                init_ok = False
+                if len(init_defs) == 1:
+                    dv = rd.def_value(init_defs[0], nm)
+                    if dv and dv[0] == 'value':
+                        n0 = dv[1]
+                        inner0, clamp0 = n0, False
+                        if isinstance(n0, ast.Call) and dotted(n0.func) == 'max' and len(n0.args) == 2:
+                            others = [a for a in n0.args if not (isinstance(a, ast.Constant) and a.value == 0)]
+                            if len(others) == 1:
+                                inner0, clamp0 = others[0], True
+                        lin0 = linearize(inner0)
+                        # (a `> 0` loop test makes the clamp unnecessary)
+                        init_ok = lin0 is not None and lin0[1] == 0 and lin0[0] == {W: 1, R: -1}
+                once = cond_in_loop(ctx, fn, lp, dec) == TRUE
+                other_writes = [a for a in walk_local(lp) if a is not dec and isinstance(a, (ast.Assign, ast.AugAssign))
+                                and any(isinstance(t, ast.Name) and t.id == nm for t in (a.targets if isinstance(a, ast.Assign) else [a.target]))]
+                bound_ok = equivalent(have, need3) and init_ok and once and not other_writes
+                msg = (f'counter form: loop test {show(have)}, initial value / decrement of `{nm}` do not amount to '
+                       f'max(0, {sn}.max_workers - len({sn}.{ex.running})) starts')
     yield ctx.ob('C04.WORKER-GATE', bound_ok, fn, lp, 'start count == max(0, max_workers - running)', '' if bound_ok else msg,
                  construct='worker-bound')
     exits = early_exits(lp, allow_raise=True, allow_continue=False)
@@ -215,6 +256,13 @@ def worker_gate(ctx: Ctx):
     for n in walk_local(lp):
         if isinstance(n, ast.Assign) and n.value is ex.construct and isinstance(n.targets[0], ast.Name):
             proc_var = n.targets[0].id
+    if isinstance(lp, ast.While) and ex.fvar is None:
+        for n in walk_local(lp):
+            if isinstance(n, ast.Assign) and isinstance(n.targets[0], ast.Name) and isinstance(n.value, ast.Call) \
+                    and dotted(n.value.func) == 'next' and n.value.args and isinstance(n.value.args[0], ast.Call) \
+                    and dotted(n.value.args[0].func) == 'iter' and n.value.args[0].args \
+                    and same_expr(strip_order_preserving(n.value.args[0].args[0]), ast.parse(f'{sn}.{ex.pending}', mode='eval').body):
+                ex.fvar = n.targets[0].id
     store = None
     start = None
     for w in field_writes(fn):
@@ -494,6 +542,12 @@ def dead_detect(ctx: Ctx):
         for call in calls_in(fn.node):
             if isinstance(call.func, ast.Name) and call.func.id == nm:
                 drains.append(call)
+    try:
+        _cons, _host, _thread = queue_consumer(ctx)
+        if _host is not None and _host.qualname == fn.qualname and _thread is not None:
+            drains.append(_thread)
+    except AnalysisError:
+        pass
     okd = bool(drains) and all(g.dominates(snode, g.primary(d)) for d in drains)
     yield ctx.ob('C11.DEAD-DETECT', okd, fn, comp, 'liveness sampled before the queue is drained',
                  '' if okd else 'process liveness is sampled after (or not before) the result queue is drained: a worker that '
@@ -669,3 +723,27 @@ def cancel_stop_complete(ctx: Ctx):
                      f'{mname}(): every entry removed from {field}',
                      '' if okr or cleared else f'executor.{mname}() leaves entries in {field}: '
                      + ('cancelled futures are started by the next top-up' if mname == 'cancel' else 'stopped entries stay counted as running'))
+
+
+def queue_consumer(ctx: Ctx):
+    """(consumer function, thread-creating host function, Thread(...) call): the executor function (method or
+    nested closure) that takes items off the result queue, and the function that runs it as a Thread target."""
+    ex = executor(ctx)
+    cons = None
+    for m in ex.cls.methods.values():
+        for f in [m] + list(m.nested.values()):
+            if any(isinstance(c.func, ast.Attribute) and c.func.attr in ('get', 'get_nowait') and 'result_queue' in src(c.func.value)
+                   for c in calls_in(f.node)):
+                cons = f
+    if cons is None:
+        raise AnalysisError('no executor function takes items off the result queue')
+    host = None
+    thread = None
+    for m in ex.cls.methods.values():
+        for c in calls_in(m.node):
+            if dotted(c.func) in ('Thread', 'threading.Thread'):
+                t = kwarg(c, 'target', 1)
+                if (isinstance(t, ast.Name) and t.id == cons.name and cons.parent is not None and cons.parent.qualname == m.qualname) or \
+                        (isinstance(t, ast.Attribute) and t.attr == cons.name and cons.parent is None):
+                    host, thread = m, c
+    return cons, host, thread
